@@ -550,6 +550,9 @@ def parse(text):
 ITEM_SIZE = {'b': 1, 'h': 2, 'w': 4, 'l': 8, 's': 4, 'd': 8}
 
 
+MAX_IMAGE = 1 << 27
+
+
 def data_image(d):
     """DataDef -> (bytes, {offset: (symbol, addend, width)})."""
     out = bytearray()
@@ -557,6 +560,8 @@ def data_image(d):
     for ty, vals in d.items:
         if ty == 'z':
             for v in vals:
+                if v[1] < 0 or len(out) + v[1] > MAX_IMAGE:
+                    raise ILSyntaxError('data $%s: zero fill of %d bytes (object larger than %d bytes is not materialised)' % (d.name, v[1], MAX_IMAGE))
                 out += b'\0' * v[1]
             continue
         sz = ITEM_SIZE[ty]
